@@ -87,7 +87,7 @@ pub struct FlakyToken {
     inner: Box<dyn Contract<Empty>>,
 }
 impl FlakyToken {
-    fn boxed() -> Box<dyn Contract<Empty>> {
+    pub fn boxed() -> Box<dyn Contract<Empty>> {
         Box::new(FlakyToken {
             inner: Box::new(ContractWrapper::new(cw20_base::contract::execute, cw20_base::contract::instantiate, cw20_base::contract::query)),
         })
